@@ -6,6 +6,9 @@ CHECK = '''
 import math
 def c18_check(family, ref_src, q_src, level_mag, ns):
     import measured
+    if isinstance(level_mag, str):
+        from decimal import Decimal
+        level_mag = eval(level_mag, {"Decimal": Decimal})
     fam = eval(family, ns)
     ref = eval(ref_src, ns)
     lu = fam[ref]
@@ -22,6 +25,8 @@ def c18_check(family, ref_src, q_src, level_mag, ns):
     if not close(float(back.in_unit(q.unit).magnitude), float(q.magnitude), 1e-7): bad.append("round-trip q->level->q: %r -> %r -> %r" % (q, lv.magnitude, back))
     L = level_mag * lu
     q2 = L.quantify()
+    want_q = float(ref.magnitude) * base ** (float(level_mag) * pfx / k)
+    if not close(float(q2.in_unit(ref.unit).magnitude), want_q, 1e-9): bad.append("definition: %r quantifies to %r, reference * base**(level*prefix/k) = %r" % (L, q2, want_q))
     L2 = lu.level(q2)
     if not close(float(L2.magnitude), float(level_mag), 1e-7): bad.append("round-trip level->q->level: %r -> %r -> %r" % (level_mag, q2, L2.magnitude))
     if not (L == q2) or not (q2 == L): bad.append("equality: level %r does not compare equal to the quantity it denotes %r" % (level_mag, q2))
@@ -53,10 +58,13 @@ def run(tier, seed):
         ref, qu = rng.choice(refs)
         q = "(%r * %s)" % (rng.choice([1, 2, 100, 0.001, 3.7, 1e6]), qu)
         lm = rng.choice([-200, -30, -3, 0, 0.5, 3, 10, 60, 200])
+        as_decimal = rng.random() < 0.25
         if fam in ("KiloBel",) and abs(lm) > 0.3:
             lm = lm / 1000.0
         if fam in ("Bel", "Neper", "Octave") and abs(lm) > 60:
             lm = lm / 10.0
+        if as_decimal:
+            lm = "Decimal(%r)" % str(lm)  # kept as source text so that the replay file can carry it
         args = [fam, ref, q, lm]
         try:
             bad = c18_check(*args, ns)
